@@ -38,6 +38,7 @@ from __future__ import annotations
 
 import contextlib
 import contextvars
+import copy
 import logging
 from itertools import count
 from typing import TYPE_CHECKING, Any
@@ -73,9 +74,10 @@ def _set_active_context(heap: EventHeap, clock: Clock) -> None:
         # Events scheduled before the run took their sort indices from the global
         # counter.  Continue numbering above everything already pushed, so that
         # same-timestamp events are delivered in creation order across the
-        # pre-run / in-run boundary (one index is consumed by the probe).
+        # pre-run / in-run boundary.  The counter is only peeked at (through a
+        # copy), so pausing and resuming a run does not shift sort indices.
         max_seen = getattr(heap, "_max_sort_index", -1)
-        if next(heap_counter) <= max_seen:
+        if next(copy.copy(heap_counter)) <= max_seen:
             heap_counter = count(max_seen + 1)
             heap._event_counter = heap_counter
         _active_counter_var.set(heap_counter)
